@@ -2,7 +2,7 @@
    run_term e music w h bytes : per character
        cls cx cy bw bh lw lh tw th nlines mt mb ml mr flags ntabs rowsum tabsum
      (cls 0 = action, 1 = error value), then -7 nlines len_0 .. -8 ntabs tab_0 ..  — the format of harness kind `term`.
-     A panic / divergence ends the list with -1 site / -2.
+     A panic ends the list with -1 site.
    emulation numbers as in the harness: 0 ANSI 1 Avatar 2 PCBoard 3 Ctrl-A 4 Renegade 5 ASCII 7 ATASCII 8 Viewdata 9 Mode 7
    music: bits 0-1 MusicOption, bit 2 bs_is_ctrl_char (ANSI only). *)
 From Coq Require Import ZArith NArith List Bool.
@@ -34,14 +34,13 @@ Fixpoint run_obs (e : emu) (m : mach) (cs : list Z) : list Z :=
               | MOk m1 => obs 0 (mt m1) ++ run_obs e m1 r
               | MErr m1 => obs 1 (mt m1) ++ run_obs e m1 r
               | MPanic s => [-1; s]
-              | MDiverge => [-2]
               end
   end.
 
 Definition run_term (e music w h : Z) (cs : list Z) : list Z :=
   run_obs (emu_of e) (init (music mod 4) (4 <=? music) w h) cs.
 
-(* C01: outcome classes only: n_ok n_err first_err cx cy bw bh tw th nlines | -1 site | -2 *)
+(* C01: outcome classes only: n_ok n_err first_err cx cy bw bh tw th nlines | -1 site *)
 Fixpoint run_cls (e : emu) (m : mach) (cs : list Z) (i nok nerr ferr : Z) : list Z :=
   match cs with
   | [] => let t := mt m in [nok; nerr; ferr; cx t; cy t; bw t; bh t; tw t; th t; zlen (lines t)]
@@ -49,7 +48,6 @@ Fixpoint run_cls (e : emu) (m : mach) (cs : list Z) (i nok nerr ferr : Z) : list
               | MOk m1 => run_cls e m1 r (i + 1) (nok + 1) nerr ferr
               | MErr m1 => run_cls e m1 r (i + 1) nok (nerr + 1) (if ferr <? 0 then i else ferr)
               | MPanic s => [-1; s]
-              | MDiverge => [-2]
               end
   end.
 Definition run_c01 (e music w h : Z) (cs : list Z) : list Z :=
